@@ -379,6 +379,10 @@ func runC05(r *RunCtx) error {
 		}
 	}
 
+	// ------------------------------------------------------------------ (c0) a busy chain with a block gas limit
+	if err := c05BusyChain(r); err != nil {
+		return err
+	}
 	// ------------------------------------------------------------------ (c) whole-app chains
 	nchain := r.Scale(5, 40)
 	for c := 0; c < nchain; c++ {
@@ -588,6 +592,61 @@ func c05Chain(r *RunCtx, c int) error {
 		}
 		if c == 0 && b == 3 {
 			r.Sample(map[string]interface{}{"trace": trace, "state": desc})
+		}
+	}
+	return nil
+}
+
+// c05BusyChain: a chain whose consensus parameters limit the gas of a block (as every public chain does), with a few
+// hundred stored files, and two accounts that buy the identical plan some reward blocks apart.  Block processing
+// must complete whatever the reward walk costs and whatever the gauges of equal purchases look like.
+func c05BusyChain(r *RunCtx) error {
+	e, err := NewEnv()
+	if err != nil {
+		return err
+	}
+	defer e.Close()
+	cp := e.App.GetConsensusParams(e.Ctx)
+	cp.Block.MaxGas = 1_000_000
+	e.App.StoreConsensusParams(e.Ctx, cp)
+	sp := e.App.StorageKeeper.GetParams(e.Ctx)
+	sp.CheckWindow, sp.ProofWindow = 4, 3
+	e.App.StorageKeeper.SetParams(e.Ctx, sp)
+	users := []sdk.AccAddress{Acct(1), Acct(2), Acct(3)}
+	for _, u := range users {
+		_ = e.Fund(u, "ujkl", 4_000_000_000_000_000)
+	}
+	trace := []interface{}{}
+	step := func(what string, msg sdk.Msg) {
+		res := e.Run(msg)
+		r.Hist("chain_msgs", what+":"+res.Out)
+		trace = append(trace, map[string]interface{}{"block": e.Height, "msg": what, "out": res.Out})
+	}
+	plan := func(u sdk.AccAddress) sdk.Msg {
+		return &storagetypes.MsgBuyStorage{Creator: u.String(), ForAddress: u.String(), DurationDays: 30, Bytes: 5_000_000_000_000, PaymentDenom: "ujkl"}
+	}
+	nfiles := r.Scale(320, 1500)
+	for b := 0; b < 14; b++ {
+		switch b {
+		case 0:
+			step("storage.MsgBuyStorage(A)", plan(users[0]))
+		case 1, 2:
+			for i := 0; i < nfiles/2; i++ {
+				data := []byte(fmt.Sprintf("busy-%d-%d", b, i))
+				root, _, _ := c05OneChunkFile(data)
+				res := e.Run(&storagetypes.MsgPostFile{Creator: users[0].String(), Merkle: root, FileSize: int64(len(data)), MaxProofs: 3, Note: "{}"})
+				r.Hist("chain_msgs", "storage.MsgPostFile(busy):"+res.Out)
+			}
+			trace = append(trace, map[string]interface{}{"block": e.Height, "msg": fmt.Sprintf("%d x storage.MsgPostFile by A", nfiles/2)})
+		case 9:
+			step("storage.MsgBuyStorage(B, the same plan as A, some reward blocks later)", plan(users[1]))
+		}
+		pn, where := c05NextBlock(e, 10*time.Minute) // (whole tokens have been streamed between the two purchases)
+		r.Count(fmt.Sprintf("busy:%d", b), true)
+		r.Hist("whole_app_block", map[bool]string{true: "panic in " + where, false: "completed"}[pn != ""])
+		if pn != "" {
+			r.Finding("C05/beginblock-panic/"+where, fmt.Sprintf("the assembled app (block gas limit %d, %d stored files) panicked in %s after valid transactions: %s", cp.Block.MaxGas, nfiles, where, pn), map[string]interface{}{"trace": trace, "height": e.Height})
+			return nil
 		}
 	}
 	return nil
